@@ -50,14 +50,23 @@ def showValue : Wrap.Value → String
 def builderAt (i : Nat) : Option Wrap.Builder := Gen.Wrappers.builders[i]?
 
 /-- `c20n` -> sizes of the enumerated space per builder: `<wrapper>.<name>:<fields ;-separated>:<n>:<core n>` -/
-def c20n : String :=
-  " ".intercalate (Gen.Wrappers.builders.map (fun b =>
-    s!"{strOf b.wrapper}.{strOf b.name}:{";".intercalate (b.fields.map (fun f => strOf f.name))}:{(Wrap.enumerate b).length}:{(Wrap.core b).length}"))
+def liveNow : List Cli.Str := Wrap.liveSlugsOf Gen.CliGrammar.grammar Gen.Wrappers.builders
 
-def showCase (b : Wrap.Builder) (v : Wrap.Valuation) : String :=
+/-- `c20live` -> slugs of the `knownBad` entries that reproduce on the current sources (`-` = none) -/
+def c20live : String :=
+  match liveNow with
+  | [] => "-"
+  | l => " ".intercalate (l.map strOf)
+
+def c20n : String :=
+  let live := liveNow
+  " ".intercalate (Gen.Wrappers.builders.map (fun b =>
+    s!"{strOf b.wrapper}.{strOf b.name}:{";".intercalate (b.fields.map (fun f => strOf f.name))}:{(Wrap.enumerate b).length}:{(Wrap.core live b).length}"))
+
+def showCase (live : List Cli.Str) (b : Wrap.Builder) (v : Wrap.Valuation) : String :=
   let argv := Wrap.build b v
-  let slug := match Wrap.badFor b v with
-    | some e => e.slug
+  let slug := match Wrap.badFor live b v with
+    | some e => strOf e.slug
     | none => "-"
   let res := match Cli.accepts Gen.CliGrammar.grammar argv with
     | .ok p => if Wrap.means Gen.CliGrammar.grammar p (Wrap.intent b v) then "ok" else "misread"
@@ -72,9 +81,10 @@ def c20case (core : Bool) : List String → String
       match builderAt bi with
       | none => "bad-req"
       | some b =>
-        match (if core then Wrap.core b else Wrap.enumerate b)[ci]? with
+        let live := liveNow
+        match (if core then Wrap.core live b else Wrap.enumerate b)[ci]? with
         | none => "bad-req"
-        | some v => showCase b v
+        | some v => showCase live b v
     | _, _ => "bad-req"
   | _ => "bad-req"
 
@@ -85,7 +95,9 @@ def c20all (core : Bool) : List String → String
     | some bi =>
       match builderAt bi with
       | none => "bad-req"
-      | some b => " | ".intercalate ((if core then Wrap.core b else Wrap.enumerate b).map (showCase b))
+      | some b =>
+        let live := liveNow
+        " | ".intercalate ((if core then Wrap.core live b else Wrap.enumerate b).map (showCase live b))
     | none => "bad-req"
   | _ => "bad-req"
 
@@ -94,6 +106,7 @@ def dispatch : List String → Option String
   | "c20allcore" :: rest => some (c20all true rest)
   | "clap" :: rest => some (clap rest)
   | "c20n" :: _ => some c20n
+  | "c20live" :: _ => some c20live
   | "c20case" :: rest => some (c20case false rest)
   | "c20core" :: rest => some (c20case true rest)
   | _ => none
